@@ -429,6 +429,8 @@ pub fn gen_group(r: &mut Rng) -> (String, usize) {
                 match r.below(8) {
                     0 => "0".to_string(),
                     1 => (*r.pick(&["", "1", "2", "5", "00", "255"])).to_string(),
+                    // ... and to values that ARE colour / effect codes when read on their own
+                    2 => (*r.pick(&["31", "42", "91", "104", "7", "4", "9", "39", "49", "30", "47", "97", "100"])).to_string(),
                     _ => r.below(256).to_string(),
                 }
             };
